@@ -374,6 +374,19 @@ func (s *scope) dispose() error {
 	return nil
 }
 
+// unlessDisposed hands out an instance of this scope unless the scope has been
+// closed meanwhile. Dependencies resolved after the Close began failed with the
+// disposed error, which an optional parameter-object field tolerates: an
+// instance constructed during the Close may have been built without them, so
+// it is not handed out (it stays tracked and is disposed by the Close).
+func (s *scope) unlessDisposed(instance any) (any, error) {
+	if atomic.LoadInt32(&s.disposed) != 0 {
+		return nil, ErrScopeDisposed
+	}
+
+	return instance, nil
+}
+
 // lockConstruction acquires the construction lock of the registration that
 // descriptor belongs to (all outputs of one constructor share it) and returns
 // the function releasing it. Dependencies are acyclic, so locks are always
@@ -530,7 +543,7 @@ func (s *scope) resolve(key instanceKey, descriptor *Descriptor) (any, error) {
 	case Scoped:
 		// Check for circular dependency only when creating new instance
 		if instance, ok := s.getInstance(key); ok {
-			return instance, nil
+			return s.unlessDisposed(instance)
 		}
 		verifPoint("scope.resolve.miss")
 
@@ -541,7 +554,7 @@ func (s *scope) resolve(key instanceKey, descriptor *Descriptor) (any, error) {
 		verifPoint("scope.resolve.locked")
 
 		if instance, ok := s.getInstance(key); ok {
-			return instance, nil
+			return s.unlessDisposed(instance)
 		}
 
 		// Create and cache scoped instance
@@ -550,11 +563,16 @@ func (s *scope) resolve(key instanceKey, descriptor *Descriptor) (any, error) {
 			return nil, err
 		}
 
-		return instance, nil
+		return s.unlessDisposed(instance)
 
 	case Transient:
 		// Always create new instance
-		return s.createInstance(descriptor)
+		instance, err := s.createInstance(descriptor)
+		if err != nil {
+			return nil, err
+		}
+
+		return s.unlessDisposed(instance)
 
 	default:
 		return nil, &LifetimeError{
